@@ -2,7 +2,9 @@ import ScVerif.C01.Model
 /-!
 # C01 — the concrete message used by the driver
 
-`Msg` is `internal/testproto.TestAllTypes` restricted to five top-level fields of all the shapes
+`Msg` is the disjoint union of the modelled fields of two real message types (a script of the harness
+uses the fields of ONE of them; an all-default message stands for the zero message of either).
+`internal/testproto.TestAllTypes` restricted to five top-level fields of all the shapes
 `proto.Merge` treats differently:
 
 * `a` = `default_int32`  (scalar, implicit presence: populated iff ≠ 0)
@@ -10,6 +12,13 @@ import ScVerif.C01.Model
 * `c` = `optional_int32` (scalar, explicit presence)
 * `f` = `default_foreign_message` (a nested message `ForeignMessage{c, d int32}`; present or absent)
 * `r` = `repeated_int32` (a repeated field; populated iff non-empty)
+
+and `traits.OpenClosePosition` (sc-api) restricted to two fields whose NAMES are related: one is a textual
+prefix of the other, at the same level (every place where `pkg/masks` decides "this path lies inside that
+one" from the path strings has to tell them apart):
+
+* `p` = `open_percent` (scalar, implicit presence; the harness keeps the float32 integral and small)
+* `t` = `open_percent_tween` (a nested message `types.Tween`, of which `progress` is modelled)
 
 Under an update mask that names them, `proto.Merge` REPLACES a scalar, MERGES a nested message
 field by field (sub-fields populated in the source overwrite, the others are kept) and APPENDS to a
@@ -19,7 +28,7 @@ everything is replaced; a field named by the mask and not populated in the sourc
 Masks are lists of paths: the five top-level paths, `x` (a path that is not a field of the message)
 and the NESTED paths `fc` = `default_foreign_message.c`, `fd` = `default_foreign_message.d`, `fx` =
 `default_foreign_message.no_such_field` (so masks can name a parent, its children, both, or an unknown
-child), with duplicates and order kept as given.  `flatOps` follows
+child), and for the second type `p`, `t`, `tp` = `open_percent_tween.progress`, with duplicates and order kept as given.  `flatOps` follows
 `pkg/masks` (`FieldUpdater.Validate/Merge`, `pruneEmpty`, `isWritablePath`, `nestedMask`,
 `ResponseFilter.FilterClone`), `fieldmaskpb.{IsValid,Union}` and `fmutils` phase by phase, specialised to
 such masks.  (Masks in general depth are C05's subject.)
@@ -28,7 +37,7 @@ Integers are unbounded here; the harness keeps |values| far below 2^31 so `int32
 -/
 namespace ScVerif.C01
 
-inductive Field | a | s | c | f | r | x | fc | fd | fx
+inductive Field | a | s | c | f | r | x | fc | fd | fx | p | t | tp
   deriving DecidableEq, Repr
 
 abbrev Mask := List Field
@@ -39,6 +48,8 @@ structure Msg where
   c : Option Int
   f : Option (Int × Int) := none
   r : List Int := []
+  p : Int := 0
+  t : Option Int := none
   deriving DecidableEq, Repr
 
 namespace Flat
@@ -56,6 +67,9 @@ def has (m : Msg) : Field → Bool
   | .fc => match m.f with | some (c, _) => c ≠ 0 | none => false
   | .fd => match m.f with | some (_, d) => d ≠ 0 | none => false
   | .fx => false
+  | .p => m.p ≠ 0
+  | .t => m.t.isSome
+  | .tp => match m.t with | some g => g ≠ 0 | none => false
 
 /-- `protoreflect.Message.Clear` (`fc`/`fd`: on the nested message when it is present) -/
 def clear (m : Msg) : Field → Msg
@@ -68,6 +82,9 @@ def clear (m : Msg) : Field → Msg
   | .fc => { m with f := m.f.map (fun p => (0, p.2)) }
   | .fd => { m with f := m.f.map (fun p => (p.1, 0)) }
   | .fx => m
+  | .p => { m with p := 0 }
+  | .t => { m with t := none }
+  | .tp => { m with t := m.t.map (fun _ => 0) }
 
 /-- `proto.Merge` of a `ForeignMessage`: populated (non-zero) sub-fields of the source overwrite -/
 def mergeForeign (d s : Int × Int) : Int × Int :=
@@ -81,22 +98,25 @@ def copy (dst src : Msg) : Field → Msg
   | .c => { dst with c := src.c }
   | .f => { dst with f := src.f.map (mergeForeign (dst.f.getD (0, 0))) }
   | .r => { dst with r := dst.r ++ src.r }
+  | .p => { dst with p := src.p }
+  | .t => { dst with t := src.t.map (fun g => if g ≠ 0 then g else dst.t.getD 0) }
   | _ => dst
 
 /-- the top-level fields -/
-def fields : List Field := [.a, .s, .c, .f, .r]
+def fields : List Field := [.a, .s, .c, .f, .r, .p, .t]
 
-/-- the top-level fields other than the nested message -/
-def plainFields : List Field := [.a, .s, .c, .r]
+/-- the top-level fields other than the nested messages -/
+def plainFields : List Field := [.a, .s, .c, .r, .p]
 
 /-- `FieldMask.IsValid(msg)` -/
-def isValid (m : Mask) : Bool := m.all (fun p => p ≠ .x && p ≠ .fx)
+def isValid (m : Mask) : Bool := m.all (fun q => q ≠ .x && q ≠ .fx)
 
 /-- `normalizePaths`: sorted, duplicate free, and a path that lies inside another path of the list is
-dropped (`f.c` next to `f`). -/
+dropped (`f.c` next to `f`, `t.progress` next to `t` — but not `t` next to `p`, whose name merely starts
+with `p`'s). -/
 def normalize (m : Mask) : Mask :=
-  [Field.f, .fc, .fd, .fx, .a, .s, .c, .r, .x].filter
-    (fun p => m.contains p && !((p = .fc || p = .fd || p = .fx) && m.contains .f))
+  [Field.f, .fc, .fd, .fx, .a, .s, .x, .p, .t, .tp, .c, .r].filter
+    (fun q => m.contains q && !((q = .fc || q = .fd || q = .fx) && m.contains .f) && !(q = .tp && m.contains .t))
 
 /-- `fieldmaskpb.Union` -/
 def union (w : Mask) (more : Option Mask) : Mask := normalize (w ++ more.getD [])
@@ -113,24 +133,38 @@ def fsel (mask : Mask) : FSel :=
     .part (mask.contains .fc) (mask.contains .fd)
   else .no
 
+/-- the same for the second nested message (`open_percent_tween`; one modelled sub-field) -/
+inductive TSel | no | whole | part
+  deriving DecidableEq, Repr
+
+def tsel (mask : Mask) : TSel :=
+  if mask.contains .t then .whole else if mask.contains .tp then .part else .no
+
 /-- `fmutils.NestedMask.Filter` / `masks.filterMessage`: an empty mask keeps everything; a partly
 selected nested message keeps the selected sub-fields (and stays present). -/
 def nmFilter (mask : Mask) (m : Msg) : Msg :=
   if mask.isEmpty then m
   else
     let m := plainFields.foldl (fun acc fld => if mask.contains fld then acc else clear acc fld) m
-    match fsel mask with
-    | .no => clear m .f
-    | .whole => m
-    | .part c d => (if d then id else (clear · .fd)) ((if c then id else (clear · .fc)) m)
+    let m := match fsel mask with
+      | .no => clear m .f
+      | .whole => m
+      | .part c d => (if d then id else (clear · .fd)) ((if c then id else (clear · .fc)) m)
+    match tsel mask with
+    | .no => clear m .t
+    | _ => m
 
 /-- `fmutils.NestedMask.Prune` -/
 def nmPrune (mask : Mask) (m : Msg) : Msg :=
   let m := plainFields.foldl (fun acc fld => if mask.contains fld then clear acc fld else acc) m
-  match fsel mask with
+  let m := match fsel mask with
+    | .no => m
+    | .whole => clear m .f
+    | .part c d => (if d then (clear · .fd) else id) ((if c then (clear · .fc) else id) m)
+  match tsel mask with
   | .no => m
-  | .whole => clear m .f
-  | .part c d => (if d then (clear · .fd) else id) ((if c then (clear · .fc) else id) m)
+  | .whole => clear m .t
+  | .part => clear m .tp
 
 /-- `proto.Merge(dst, src)`: populated fields of `src` overwrite / merge / append. -/
 def protoMerge (dst src : Msg) : Msg :=
@@ -142,17 +176,20 @@ populate is cleared; for a partly mentioned nested message only the mentioned su
 def pruneEmpty (dst src : Msg) (mask : Mask) : Msg :=
   let dst := plainFields.foldl
     (fun acc fld => if has acc fld && mask.contains fld && !(has src fld) then clear acc fld else acc) dst
-  match fsel mask with
+  let sub (sel : Bool) (fld : Field) (acc : Msg) : Msg :=
+    if sel && has acc fld && !(has src fld) then clear acc fld else acc
+  let dst := match fsel mask with
+    | .no => dst
+    | .whole => if has dst .f && !(has src .f) then clear dst .f else dst
+    | .part c d => sub d .fd (sub c .fc dst)
+  match tsel mask with
   | .no => dst
-  | .whole => if has dst .f && !(has src .f) then clear dst .f else dst
-  | .part c d =>
-    let sub (sel : Bool) (fld : Field) (acc : Msg) : Msg :=
-      if sel && has acc fld && !(has src fld) then clear acc fld else acc
-    sub d .fd (sub c .fc dst)
+  | .whole => if has dst .t && !(has src .t) then clear dst .t else dst
+  | .part => sub true .tp dst
 
 /-- `masks.isWritablePath`: the path is one of the writable paths or lies inside one of them -/
-def isWritablePath (w : Mask) (p : Field) : Bool :=
-  w.contains p || ((p = .fc || p = .fd || p = .fx) && w.contains .f)
+def isWritablePath (w : Mask) (q : Field) : Bool :=
+  w.contains q || ((q = .fc || q = .fd || q = .fx) && w.contains .f) || (q = .tp && w.contains .t)
 
 /-- `FieldUpdater.Validate` -/
 def validate (u : Upd Mask) (_msg : Msg) : Option Code :=
